@@ -319,7 +319,8 @@ def r05a(model: Model, rr: RuleResult):
     tgcfg = cfg_of(tg)
     draws = [c for c in calls_in(tg) if callee_tail(c) == "draw" and isinstance(c.func, ast.Attribute)]
     tpen = [c for c in calls_in(tg) if norm(c.func) == "TransformPen" and len(c.args) == 2]
-    drawn = in_caller_terms(tg, tb[0], draws[0].func.value, tgcfg.node_for(draws[0])) if len(draws) == 1 else None
+    same_receiver = len(draws) >= 1 and len({norm(c.func.value) for c in draws}) == 1  # `if identity: g.draw(a) else: g.draw(b)` draws the same glyph either way
+    drawn = in_caller_terms(tg, tb[0], draws[0].func.value, tgcfg.node_for(draws[0])) if same_receiver else None
     applied = in_caller_terms(tg, tb[0], tpen[0].args[1], tgcfg.node_for(tpen[0])) if len(tpen) == 1 else None
     from ..dataflow import resolved as _r5a
     if drawn is not None:
@@ -388,15 +389,16 @@ def r05b(model: Model, rr: RuleResult):
     # the name(s) the bounds pen is bound to
     bnames = {t.id for st in walk_body(fi) if isinstance(st, ast.Assign) and bpc and st.value is bpc[0] for t in st.targets if isinstance(t, ast.Name)}
     okd = False
-    if len(draw) == 1 and len(ret) == 1 and ret[0].value is not None and bnames:
+    if len(draw) >= 1 and len({norm(c.func.value) for c in draw}) == 1 and all(c.args for c in draw) and len(ret) == 1 and ret[0].value is not None and bnames:
         dn = cfg.node_for(draw[0])
-        pen_arg = draw[0].args[0]
         vals = []
-        if isinstance(pen_arg, ast.Name):
-            for d in cfg.reaching(dn, pen_arg.id):
-                vals.append(d.value)
-        else:
-            vals.append(pen_arg)
+        for dc in draw:  # one draw per branch of `if identity ... else ...` counts like one draw of a pen chosen by that test
+            pen_arg = dc.args[0]
+            if isinstance(pen_arg, ast.Name):
+                for d in cfg.reaching(cfg.node_for(dc), pen_arg.id):
+                    vals.append(d.value)
+            else:
+                vals.append(pen_arg)
         pens_ok = bool(vals) and all(v is not None and ((isinstance(v, ast.Name) and v.id in bnames) or v is bpc[0] or
                                                          (isinstance(v, ast.Call) and norm(v.func) == "TransformPen" and len(v.args) == 2 and norm(v.args[0]) in bnames)) for v in vals)
         ret_ok = isinstance(ret[0].value, ast.Attribute) and ret[0].value.attr == "bounds" and norm(ret[0].value.value) in bnames
